@@ -10,6 +10,8 @@ import sys
 import time
 from typing import TYPE_CHECKING, Any
 
+from hypergraph.exceptions import describe_exception
+
 if TYPE_CHECKING:
     from hypergraph.events.dispatcher import EventDispatcher
     from hypergraph.events.processor import EventProcessor
@@ -113,7 +115,7 @@ def build_node_error_event(
         parent_span_id=run_span_id,
         node_name=node.name,
         graph_name=graph.name,
-        error=str(exc_val) if exc_val is not None else "",
+        error=describe_exception(exc_val) if exc_val is not None else "",
         error_type=f"{exc_type.__module__}.{exc_type.__qualname__}" if exc_type else "",
     )
 
@@ -195,6 +197,6 @@ def build_run_end_event(
         parent_span_id=parent_span_id,
         graph_name=graph.name,
         status=RunStatus.FAILED if error is not None else RunStatus.COMPLETED,
-        error=str(error) if error is not None else None,
+        error=describe_exception(error) if error is not None else None,
         duration_ms=duration_ms,
     )
